@@ -12,6 +12,7 @@ import GeckoModel.Properties.C16
 import GeckoModel.Proofs.Coop
 import GeckoModel.Generated.Skeletons
 import GeckoModel.Model.Coop
+import GeckoModel.Model.Wire
 
 namespace GeckoModel.C05
 open GeckoModel GeckoModel.Generated
@@ -229,5 +230,29 @@ theorem partial_update_path_state_inventory :
       (["self.sequence"], ["self._socket.get_and_increment_sequence_counter", "self.changes.append"]) ∧
     stateOf Skeletons.sk_async_spa__GeckoAsyncSpa__async_on_partial_status_update = ([], ["self.struct.replace_status_block_segment"]) ∧
     stateOf Skeletons.sk_spa__GeckoSpa__on_partial_status_update = ([], ["self.struct.replace_status_block_segment"]) := by decide +kernel
+
+/-! ### the largest message fits the threaded client's receive buffer -/
+
+/-- **no partial update is too long to be received**: the count of a STATP is one byte, so a message carries at most 255 four-byte
+records; framed for any pair of identifiers of up to 7000 bytes together it is still no longer than the buffer the threaded client
+reads datagrams into (`recvBufferSize`, regenerated from udp_socket.py) - the OS never truncates one, so "no change is dropped" does
+not depend on how many changes the spa reports at once -/
+theorem largest_partial_update_fits_the_receive_buffer (p2 p3 recs : Wire.Bytes) (n : Nat) (hn : n ≤ 255) (hr : recs.length = 4 * n)
+    (hid : p2.length + p3.length ≤ 7000) :
+    (Wire.frame p2 p3 (Generated.WireFormats.STATP_VERB ++ [UInt8.ofNat n] ++ recs)).length ≤ Generated.recvBufferSize := by
+  have h1 : Generated.WireFormats.PACKET_OPEN.length = 7 := by decide
+  have h2 : Generated.WireFormats.PACKET_CLOSE.length = 8 := by decide
+  have h3 : Generated.WireFormats.SRCCN_OPEN.length = 7 := by decide
+  have h4 : Generated.WireFormats.SRCCN_CLOSE.length = 8 := by decide
+  have h5 : Generated.WireFormats.DESCN_OPEN.length = 7 := by decide
+  have h6 : Generated.WireFormats.DESCN_CLOSE.length = 8 := by decide
+  have h7 : Generated.WireFormats.DATAS_OPEN.length = 7 := by decide
+  have h8 : Generated.WireFormats.DATAS_CLOSE.length = 8 := by decide
+  have h9 : Generated.WireFormats.STATP_VERB.length = 5 := by decide
+  have hb : Generated.recvBufferSize ≥ 8192 := by decide
+  have hp : (Wire.parm Generated.WireFormats.sendSrcIndex p2 p3).length + (Wire.parm Generated.WireFormats.sendDstIndex p2 p3).length ≤ 7000 := by
+    simp only [Wire.parm, Generated.WireFormats.sendSrcIndex, Generated.WireFormats.sendDstIndex]; simp; omega
+  simp only [Wire.frame, List.length_append, h1, h2, h3, h4, h5, h6, h7, h8, h9, hr, List.length_cons, List.length_nil]
+  omega
 
 end GeckoModel.C05
